@@ -26,7 +26,7 @@ VERIF = Path(__file__).resolve().parent.parent
 COQ = VERIF / "coq"
 THEORIES = COQ / "theories"
 BUILD = VERIF / "build"
-EVID = VERIF / "evidence"
+EVID = Path(os.environ["VERIF_EVIDENCE_DIR"]) if os.environ.get("VERIF_EVIDENCE_DIR") else VERIF / "evidence"   # seeded runs write elsewhere
 REPLAYS = VERIF / "replays"
 CORPUS = VERIF / "corpus"
 REPO = Path(os.environ.get("RL4CO_REPO", "/repo"))
